@@ -275,6 +275,8 @@ def forms(content, ri):
         ("starts-ends+force_no_dup_check=False", lambda: SpanSet(list(starts), list(ends), False, R()), True),
         ("starts-ends+force_no_dup_check", lambda: SpanSet(list(starts), list(ends), force_no_dup_check=True,
                                                             eq_relation=R()), False),
+        # the collection handed to the constructor is itself a SpanSet (holding the spans as they are, repeats included)
+        ("from-spanset", lambda: SpanSet(SpanSet(list(content), force_no_dup_check=True), eq_relation=R()), True),
     ]
 
 
@@ -290,6 +292,7 @@ def form_src(form, content, ri):
         "starts-ends-tuples": "SpanSet(%r, %r, eq_relation=%s())" % (tuple(starts), tuple(ends), rn),
         "starts-ends+force_no_dup_check=False": "SpanSet(%r, %r, False, %s())" % (starts, ends, rn),
         "starts-ends+force_no_dup_check": "SpanSet(%r, %r, force_no_dup_check=True, eq_relation=%s())" % (starts, ends, rn),
+        "from-spanset": "SpanSet(SpanSet(%r, force_no_dup_check=True), eq_relation=%s())" % (list(content), rn),
     }[form]
 
 
